@@ -18,9 +18,11 @@
      amo_sem / exct_sem            cardinality over the set of DISTINCT argument literals (C13_amo_semantics, C13_exct_semantics).
    Arguments are arbitrary lists (any length, repetitions, complementary literals, constants, literals decided at root);
    the cache may be hit or missed: both are inside the quantifiers.
-   Non-vacuity: ex_state5_wf, ex_amo5, ex_exct5_history, ex_root_true, init_wf, init_exact in proofs/SatEnc_Proofs.v. *)
+   Cache keys: the model keys the expression cache structurally; the C++ key strings are modelled by smt/SatKeys.v (to_string(lit),
+   the prefixes "b" "=" "&" "|" "amo" "^") and proved injective below, so the string lookup of the C++ IS the model's lookup.
+   Non-vacuity: ex_key_text, ex_resplit_differ (proofs/SatKeys_Proofs.v), ex_state5_wf, ex_amo5, ex_exct5_history, ex_root_true, init_wf, init_exact in proofs/SatEnc_Proofs.v. *)
 From Coq Require Import List Bool Arith Permutation Sorted.
-From ORatio Require Import smt.SatEnc proofs.SatEnc_Proofs.
+From ORatio Require Import smt.SatEnc smt.Ov smt.SatKeys proofs.SatEnc_Proofs proofs.SatKeys_Proofs.
 Import ListNotations.
 
 (* ---- equality, conjunction, disjunction: equivalent to the formula in every model ---- *)
@@ -140,3 +142,19 @@ Print Assumptions C13_externals_instance.
 Theorem C13_ceiling_root : forall n, 0 < n -> (ceil_sqrt n - 1) * (ceil_sqrt n - 1) < n <= ceil_sqrt n * ceil_sqrt n.
 Proof. exact ceil_sqrt_spec. Qed.
 Print Assumptions C13_ceiling_root.
+
+(* ---- the printed cache keys: "an expression requested twice is shared" never confuses two different constructs ---- *)
+(* equal printed keys => same kind of construct and the same argument list (for ALL lists, in particular the sorted, filtered ones
+   the constructs print); digit-wise re-splittings (b5 b7 b9 / b5 b79), signs and kinds cannot collide *)
+Theorem C13_key_injective : forall k k', str_key k = str_key k' -> k = k'.
+Proof. exact str_key_inj. Qed.
+Print Assumptions C13_key_injective.
+
+Theorem C13_literal_list_text_injective : forall ls ls', str_lits ls = str_lits ls' -> ls = ls'.
+Proof. exact str_lits_inj. Qed.
+Print Assumptions C13_literal_list_text_injective.
+
+(* looking the printed key up in the printed cache by string equality (sat_core: exprs.find(s_expr)) is the model's lookup *)
+Theorem C13_lookup_by_printed_key : forall k m, lookup_str (str_key k) m = lookup k m.
+Proof. exact lookup_str_spec. Qed.
+Print Assumptions C13_lookup_by_printed_key.
